@@ -206,6 +206,28 @@ pub fn run(out_path: &str, tier: &str) {
 			}
 		}
 	}
+	// 1a. the same text offered to one type right after another type has looked at it (a verdict may not depend on what was
+	//     validated before): every ordered pair of types, code points 0..0x2ff and the edges of the planes
+	for first in TYPES {
+		for ty in TYPES {
+			if first == ty {
+				continue;
+			}
+			let case = format!("str-runs/{}/after-{}", ty, first);
+			let top = if tier == "quick" { 0x2ff } else { 0x2fff };
+			let r = scan(0, top, &mut rng, 4, |v| {
+				char::from_u32(v).map(|c| {
+					let t = c.to_string();
+					let _ = construct(first, "try_from_str", &t);
+					construct(ty, "try_from_str", &t)
+				})
+			});
+			match r {
+				Ok(runs) => out.event("StringRuns", &case, json!({"dom": "scalar", "type": ty, "ctor": format!("try_from_str after {}", first), "top": top}), "Ok", "", json!({"runs": runs_json(&runs)})),
+				Err(p) => out.event("StringRuns", &case, json!({"dom": "scalar", "type": ty, "ctor": format!("try_from_str after {}", first), "top": top}), "Panic", &p, json!({"runs": []})),
+			}
+		}
+	}
 	// 1b. complete transfer encoding of whole blocks of accepted code points (BMP: all; Universal: plane 0 in quick, all planes in thorough)
 	for (ty, top) in [("bmp", 0xffffu32), ("universal", if tier == "quick" { 0xffff } else { 0x10ffff })] {
 		let mut lo = 0u32;
